@@ -287,6 +287,24 @@ class StmtMixin(object):
             if self.guard_conds(getattr(base, "birth", 0)):
                 old = base.items.get(idx.key(), (idx, UNDEF))[1]
                 val = self.guarded(val, old, getattr(base, "birth", 0))
+            if idx.key() not in base.items:
+                from .symeval_ext import concrete_key
+                if not (concrete_key(idx) and all(concrete_key(kk) for kk, _ in base.items.values())):
+                    # a key that may equal a stored one: that entry is overwritten exactly when they are equal
+                    kind, res = self.dict_lookup(base, idx, node)
+                    if kind == "hit":
+                        for kk_key, (kk, vv) in list(base.items.items()):
+                            if self.equals(idx, kk, node) is True:
+                                base.items[kk_key] = (kk, val)
+                                return
+                    if kind == "maybe":
+                        for kk_key, (kk, vv) in list(base.items.items()):
+                            r = self.equals(idx, kk, node)
+                            if isinstance(r, Cond):
+                                r = self.assume(r)
+                            if isinstance(r, Cond):
+                                base.items[kk_key] = (kk, make_phi(r, val, vv))
+                        base.symkeys = True        # the number of entries now depends on undecided equalities
             base.items[idx.key()] = (idx, val)
             if getattr(base, "module", None) is not None:
                 self.module_store(base.module, idx, val, node)
